@@ -199,6 +199,9 @@ func (q *checker) tcheckStatement(n *a.Node) error {
 				return err
 			}
 		}
+		if err := q.tcheckIOManipBody(n); err != nil {
+			return err
+		}
 
 	case a.KIterate:
 		for n := n.AsIterate(); n != nil; n = n.ElseIterate() {
@@ -1287,6 +1290,42 @@ swtch:
 // maxArrayElements is the maximum (inclusive) number of elements, including
 // those of nested arrays, of an array type.
 var maxArrayElements = big.NewInt(0x07FF_FFFF_FFFF_FFFF)
+
+// tcheckIOManipBody rejects leaving an io_bind or io_limit body other than by
+// falling off its end: a return, a yield, a jump to a loop that encloses the
+// block, or a call that can suspend. The generated code restores the I/O
+// variable's state only at the end of the block, and a coroutine's resumption
+// would jump into the block past the code that saved that state.
+func (q *checker) tcheckIOManipBody(n *a.IOManip) error {
+	inside := map[a.Loop]bool{}
+	for _, o := range n.Body() {
+		if err := o.Walk(func(p *a.Node) error {
+			switch p.Kind() {
+			case a.KWhile:
+				inside[p.AsWhile()] = true
+			case a.KIterate:
+				inside[p.AsIterate()] = true
+			case a.KRet:
+				return fmt.Errorf("check: %s inside an %s block",
+					p.AsRet().Keyword().Str(q.tm), n.Keyword().Str(q.tm))
+			case a.KJump:
+				if !inside[p.AsJump().JumpTarget()] {
+					return fmt.Errorf("check: %s out of an %s block",
+						p.AsJump().Keyword().Str(q.tm), n.Keyword().Str(q.tm))
+				}
+			case a.KAssign:
+				if p := p.AsAssign(); (p.Operator() != t.IDEqQuestion) && p.RHS().Effect().Coroutine() {
+					return fmt.Errorf("check: %q can suspend inside an %s block",
+						p.RHS().Str(q.tm), n.Keyword().Str(q.tm))
+				}
+			}
+			return nil
+		}); err != nil {
+			return err
+		}
+	}
+	return nil
+}
 
 func (q *checker) tcheckChoose(n *a.Choose) error {
 	qqid := q.astFunc.QQID()
